@@ -4,6 +4,7 @@ Regenerate coq/gen/Gen_memo.v from the *current* source of glue (ast scan only, 
 
 What is extracted (properties C01 and C05):
 
+  (c_copy: the class whose body defines the copy() a class uses; 0 = the base SubsetState.copy, which returns an EMPTY selection)
   classes      every class that derives (transitively, by base-class name) from `SubsetState`, in any
                non-test module under glue/ : its parent, the class whose body defines the `to_mask`
                it uses (single inheritance walk), whether that definition carries `@memoize`
@@ -140,6 +141,8 @@ def resolve(fam, cname, what):
             return c
         if what == 'op' and class_attr(info, 'op') is not None:
             return c
+        if what == 'copy' and class_body_fn(info, 'copy') is not None:
+            return c
         if c == 'SubsetState':
             return None
         c = info['parent']
@@ -193,9 +196,8 @@ def kind_of(fam, cname):
     return 0, 0
 
 
-PATHS = {('Data', 'update_components'): 0, ('Data', 'update_values_from_data'): 1,
-         ('SubsetState', '__setattr__'): 2, ('RoiSubsetStateNd', 'move_to'): 3,
-         ('Data', '_set_externally_derivable_components'): 4}
+PATHS = {'update_components': 0, 'update_values_from_data': 1, '__setattr__': 2, 'move_to': 3,
+         '_set_externally_derivable_components': 4, '_set_pixel_aligned_data': 5}
 
 
 def helper_scopes(modules):
@@ -246,10 +248,10 @@ def clear_sites(modules):
                             scope = 99
                     if scope is None:
                         continue
-                    path = PATHS.get((cls.name, fn.name), 99)
+                    path = PATHS.get(fn.name, 99)
                     before = first_b is None or n.lineno < first_b
                     sites.append({'where': '%s:%s.%s:%d' % (rel, cls.name, fn.name, n.lineno), 'path': path,
-                                  'scope': scope, 'before': before})
+                                  'scope': scope, 'before': before, 'fn': (rel, cls.name, fn.name)})
     sites.sort(key=lambda s: s['where'])
     return sites, helpers
 
@@ -264,8 +266,39 @@ def generate(out_path):
         fn = class_body_fn(fam[d], 'to_mask')
         memo = 'memoize' in deco_names(fn)
         kind, detail = kind_of(fam, n)
-        rows.append((idx[n], idx[fam[n]['parent']], idx[d], memo, kind, detail, n, fam[n]['module'], fam[n]['line']))
+        cp = resolve(fam, n, 'copy')
+        if cp is None:
+            raise Unsupported('no copy() found for ' + n)
+        rows.append((idx[n], idx[fam[n]['parent']], idx[d], memo, kind, detail, n, fam[n]['module'], fam[n]['line'], idx[cp]))
     sites, helpers = clear_sites(modules)
+    # policy of a mutation path: per function the strongest clearing on it (and whether that one precedes the
+    # broadcast); over the functions that implement the path the weakest.  move_to (path 3) is implemented by every
+    # class of the family that defines a move_to other than the base no-op: a definition without clearing makes
+    # the path unprotected.
+    per_fn = {}
+    for st in sites:
+        k = (st['path'], st['fn'])
+        cur = per_fn.get(k)
+        if st['scope'] == 99:
+            per_fn[k] = (-1, False)
+        elif cur is None or (cur[0] >= 0 and st['scope'] > cur[0]) or (cur[0] >= 0 and st['scope'] == cur[0] and st['before'] and not cur[1]):
+            per_fn[k] = (st['scope'], st['before'])
+    moveto_defs = [(fam[n]['module'], n, 'move_to') for n in names if n != 'SubsetState' and class_body_fn(fam[n], 'move_to') is not None]
+    setattr_defs = [(fam['SubsetState']['module'], 'SubsetState', '__setattr__')]
+    policy = {}
+    for path in sorted(set(PATHS.values())):
+        fns = [fnk for (pp, fnk) in per_fn if pp == path]
+        required = list(fns)
+        if path == 3:
+            required = sorted(set(fns) | set(moveto_defs))
+        if path == 2:
+            required = sorted(set(fns) | set(setattr_defs))
+        if not required:
+            continue
+        vals = [per_fn.get((path, fnk)) for fnk in required]
+        if any(v is None or v[0] < 0 for v in vals):
+            continue
+        policy[path] = (min(v[0] for v in vals), all(v[1] for v in vals))
     t = []
     t.append('(* REGENERATED by tools/gen/gen_memo.py from the working tree of glue -- do not edit.')
     t.append('   class table of the SubsetState family (memoised to_mask definitions, composite operators)')
@@ -273,13 +306,13 @@ def generate(out_path):
     t.append('From Coq Require Import List Bool Arith.')
     t.append('Import ListNotations.')
     t.append('')
-    t.append('Record cls := { c_idx : nat; c_parent : nat; c_def : nat; c_memo : bool; c_kind : nat; c_detail : nat }.')
+    t.append('Record cls := { c_idx : nat; c_parent : nat; c_def : nat; c_memo : bool; c_kind : nat; c_detail : nat; c_copy : nat }.')
     t.append('Record site := { s_path : nat; s_scope : nat; s_before : bool }.')
     t.append('')
     t.append('Definition classes : list cls := [')
     for k, r in enumerate(rows):
-        t.append('  {| c_idx := %d; c_parent := %d; c_def := %d; c_memo := %s; c_kind := %d; c_detail := %d |}%s  (* %s  %s:%d *)' % (
-            r[0], r[1], r[2], 'true' if r[3] else 'false', r[4], r[5], ';' if k + 1 < len(rows) else '', r[6], r[7], r[8]))
+        t.append('  {| c_idx := %d; c_parent := %d; c_def := %d; c_memo := %s; c_kind := %d; c_detail := %d; c_copy := %d |}%s  (* %s  %s:%d *)' % (
+            r[0], r[1], r[2], 'true' if r[3] else 'false', r[4], r[5], r[9], ';' if k + 1 < len(rows) else '', r[6], r[7], r[8]))
     t.append('].')
     t.append('')
     for n in names:
@@ -300,12 +333,17 @@ def generate(out_path):
     t.append('Definition detail_of (c : nat) : nat := match find_cls c with Some r => c_detail r | None => 0 end.')
     t.append('(* the function caches that exist *)')
     t.append('Definition memo_fns : list nat := map c_idx (filter (fun r => c_memo r && Nat.eqb (c_def r) (c_idx r)) classes).')
-    t.append('(* policy of a mutation path: the strongest clearing scope on it, and whether every such site precedes the broadcast *)')
-    t.append('Definition sites_of (p : nat) : list site := filter (fun s => Nat.eqb (s_path s) p) clear_sites.')
-    t.append('Definition scope_of (p : nat) : option nat :=')
-    t.append('  match sites_of p with [] => None | s :: l => Some (fold_left Nat.max (map s_scope l) (s_scope s)) end.')
-    t.append('Definition before_of (p : nat) : bool :=')
-    t.append('  existsb (fun s => s_before s && Nat.eqb (s_scope s) (match scope_of p with Some k => k | None => 0 end)) (sites_of p).')
+    t.append('(* policy of a mutation path (0 update_components, 1 update_values_from_data, 2 attribute assignment on a state,')
+    t.append('   3 move_to, 4 links / externally derivable components, 5 pixel-aligned datasets): (path, scope, before the broadcast);')
+    t.append('   a path that is not listed clears nothing *)')
+    t.append('Definition path_policy : list (nat * nat * bool) := [')
+    items = sorted(policy.items())
+    for k, (pth, (sc, bf)) in enumerate(items):
+        t.append('  (%d, %d, %s)%s' % (pth, sc, 'true' if bf else 'false', ';' if k + 1 < len(items) else ''))
+    t.append('].')
+    t.append('Definition find_policy (p : nat) : option (nat * nat * bool) := find (fun r => Nat.eqb (fst (fst r)) p) path_policy.')
+    t.append('Definition scope_of (p : nat) : option nat := match find_policy p with Some r => Some (snd (fst r)) | None => None end.')
+    t.append('Definition before_of (p : nat) : bool := match find_policy p with Some r => snd r | None => true end.')
     text = '\n'.join(t) + '\n'
     if not os.path.exists(out_path) or open(out_path).read() != text:
         tmp = out_path + '.tmp'
